@@ -14,6 +14,12 @@ type dereference struct {
 	userTypes    map[string]schema.Schema
 	visitedTypes map[string]struct{}
 	result       *schemaInfoList
+
+	// scopes are the types registered on the user types which are being walked
+	// (the innermost last). A type which the root schema doesn't have itself can
+	// be registered on the type that refers to it: the schema is accepted then,
+	// so the name has to be found here as well. The collections are only read.
+	scopes []map[string]schema.Schema
 }
 
 func Dereference(s schema.Schema) []SchemaInformer {
@@ -41,6 +47,10 @@ func newDereference(userTypes map[string]schema.Schema) dereference {
 func (d dereference) schema(s schema.Schema) {
 	switch st := s.(type) {
 	case *jschema.JSchema:
+		if len(st.UserTypeCollection) != 0 {
+			// d is a copy: the scope ends with this call.
+			d.scopes = append(d.scopes[:len(d.scopes):len(d.scopes)], st.UserTypeCollection)
+		}
 		d.jSchema(st.ASTNode)
 	case *regex.RSchema:
 		d.rSchema(st)
@@ -73,7 +83,7 @@ func (d *dereference) jSchema(astNode schema.ASTNode) {
 		info := newJSchemaInfoFromASTNode(astNode)
 		d.result.append(info)
 	case schema.TokenTypeObject:
-		info := newObjectInfo(astNode, d.userTypes)
+		info := newObjectInfo(astNode, d.visibleTypes())
 		d.result.append(info)
 	case schema.TokenTypeShortcut:
 		name := astNode.Value
@@ -87,12 +97,54 @@ func (d *dereference) jSchema(astNode schema.ASTNode) {
 }
 
 func (d dereference) userType(name string) {
-	ut, ok := d.userTypes[name]
+	ut, ok := d.findType(name)
 	if !ok {
 		panic(errs.ErrUserTypeNotFound.F(name))
 	}
 
 	d.schema(ut)
+}
+
+// findType looks the type up among the types of the root schema, then among the
+// types registered on the user types being walked.
+func (d dereference) findType(name string) (schema.Schema, bool) {
+	if ut, ok := d.userTypes[name]; ok {
+		return ut, true
+	}
+	for i := len(d.scopes) - 1; i >= 0; i-- {
+		if ut, ok := d.scopes[i][name]; ok {
+			return ut, true
+		}
+	}
+	return nil, false
+}
+
+// visibleTypes returns the types which can be referred to at the current place:
+// the map of the root schema itself when nothing else is in scope, a new map
+// otherwise (the root's own types win).
+func (d dereference) visibleTypes() map[string]schema.Schema {
+	extra := false
+	for _, sc := range d.scopes {
+		for name := range sc {
+			if _, ok := d.userTypes[name]; !ok {
+				extra = true
+			}
+		}
+	}
+	if !extra {
+		return d.userTypes
+	}
+
+	m := make(map[string]schema.Schema, len(d.userTypes))
+	for _, sc := range d.scopes {
+		for name, ut := range sc {
+			m[name] = ut
+		}
+	}
+	for name, ut := range d.userTypes {
+		m[name] = ut
+	}
+	return m
 }
 
 func (d dereference) orItem(r schema.RuleASTNode) {
